@@ -13,3 +13,167 @@ func VerifC19_DurRoundTrip() {
 	vrt.Assert(err == nil, "C19.dur.rt parse(print(d)) succeeds")
 	vrt.Assert(got == d, "C19.dur.rt parse(print(d)) == d")
 }
+
+func refUnit(c byte) int64 {
+	switch c {
+	case 's':
+		return 1
+	case 'm':
+		return 60
+	case 'h':
+		return 3600
+	case 'd':
+		return 86400
+	case 'w':
+		return 7 * 86400
+	case 'y':
+		return 365 * 86400
+	}
+	return 0
+}
+
+// VerifC19_DurExact: every byte string of length 0..L: whenever ParseDuration accepts, the
+// string has the shape [0-9]+[smhdwy] and the result is exactly number x unit computed in
+// int64 and fits 31 bits; every string of that shape without redundant leading zeros whose
+// exact value fits is accepted.
+func VerifC19_DurExact() {
+	maxLen := 5
+	if vrt.Tier() == 1 {
+		maxLen = 8
+	}
+	n := vrt.Choose("len", maxLen+1)
+	s := vrt.Str("s", n)
+	vrt.Reach("pre")
+	d, err := ParseDuration(s)
+
+	// reference meaning, from the statement, in 64-bit arithmetic
+	shape := n >= 2
+	var val int64
+	for i := 0; i < n-1; i++ {
+		c := s[i]
+		if c < '0' || c > '9' {
+			shape = false
+		} else {
+			val = val*10 + int64(c-'0')
+		}
+	}
+	var mult int64
+	if n >= 1 {
+		mult = refUnit(s[n-1])
+	}
+	if mult == 0 {
+		shape = false
+	}
+	exact := val * mult
+	leadingZero := n >= 3 && s[0] == '0'
+
+	if err == nil {
+		vrt.Reach("accepted")
+		vrt.Assert(shape, "C19.dur.exact accepted string has shape digits+unit")
+		vrt.Assert(int64(d) == exact, "C19.dur.exact value is number x unit")
+		vrt.Assert(exact <= 2147483647, "C19.dur.exact no wrap-around accepted")
+		vrt.Assert(d >= 0, "C19.dur.exact result non-negative")
+	} else {
+		vrt.Reach("rejected")
+		if shape {
+			if !leadingZero {
+				vrt.Assert(exact > 2147483647, "C19.dur.exact well-formed in-range string is accepted")
+			}
+		}
+	}
+}
+
+// VerifC19_Method: names of all enumerated methods parse back to the same value; strings
+// outside the table are rejected.
+func VerifC19_Method() {
+	vrt.Reach("pre")
+	for i := 1; i <= 8; i++ {
+		m := AggregationMethod(i)
+		got, err := AggregationMethodString(m.String())
+		vrt.Assert(err == nil, "C19.method name parses")
+		vrt.Assert(got == m, "C19.method parse(print(m)) == m")
+	}
+	for _, bad := range []string{"", "avg", "Average", "sum ", "AggregationMethod(9)", "percentile2"} {
+		_, err := AggregationMethodString(bad)
+		vrt.Assert(err != nil, "C19.method unknown name rejected")
+	}
+	_, err := AggregationMethodString(AggregationMethod(0).String())
+	vrt.Assert(err != nil, "C19.method out-of-range value's text rejected")
+	_, err = AggregationMethodString(AggregationMethod(9).String())
+	vrt.Assert(err != nil, "C19.method out-of-range value's text rejected (9)")
+}
+
+// VerifC19_ArchRoundTrip: for an accepted archive list l, ParseArchiveInfoList(l.String())
+// equals l (steps, counts and offsets).
+func VerifC19_ArchRoundTrip() {
+	steps := []Duration{1, 7, 60, 3600}
+	na := 1 + vrt.Choose("A", 2)
+	s0 := steps[vrt.Choose("S0", len(steps))]
+	maxN := uint32(999)
+	if vrt.Tier() == 1 {
+		maxN = 99999
+	}
+	var list ArchiveInfoList
+	n0 := vrt.U32("N0")
+	vrt.Assume(n0 >= 1)
+	vrt.Assume(n0 <= maxN)
+	list = append(list, NewArchiveInfo(s0, n0))
+	if na == 2 {
+		r := Duration(2 + vrt.Choose("r", 2))
+		n1 := vrt.U32("N1")
+		vrt.Assume(n1 >= 1)
+		vrt.Assume(n1 <= maxN)
+		list = append(list, NewArchiveInfo(s0*r, n1))
+	}
+	h, err := NewHeader(Sum, 0.5, list)
+	if err != nil {
+		return
+	}
+	vrt.Reach("accepted")
+	l := h.ArchiveInfoList()
+	txt := l.String()
+	got, err := ParseArchiveInfoList(txt)
+	vrt.Assert(err == nil, "C19.arch printed list parses")
+	vrt.Assert(len(got) == len(l), "C19.arch same length")
+	for i := range l {
+		vrt.Assert(got[i].secondsPerPoint == l[i].secondsPerPoint, "C19.arch same step")
+		vrt.Assert(got[i].numberOfPoints == l[i].numberOfPoints, "C19.arch same count")
+		vrt.Assert(got[i].offset == l[i].offset, "C19.arch same offset")
+	}
+}
+
+// VerifC19_ArchExact: any "<dur>:<dur>" string accepted by ParseArchiveInfo denotes a
+// positive step and a retention that is a positive multiple of it.
+func VerifC19_ArchExact() {
+	maxLen := 5
+	if vrt.Tier() == 1 {
+		maxLen = 6
+	}
+	n := vrt.Choose("len", maxLen+1)
+	s := vrt.Str("s", n)
+	vrt.Reach("pre")
+	a, err := ParseArchiveInfo(s)
+	if err != nil {
+		return
+	}
+	vrt.Reach("accepted")
+	// find the colon and re-parse both halves with the duration parser as reference
+	colon := -1
+	for i := 0; i < n; i++ {
+		if s[i] == ':' {
+			if colon < 0 {
+				colon = i
+			}
+		}
+	}
+	vrt.Assert(colon > 0, "C19.arch.exact accepted string contains ':' after a step")
+	step, e1 := ParseDuration(s[:colon])
+	ret, e2 := ParseDuration(s[colon+1:])
+	vrt.Assert(e1 == nil, "C19.arch.exact step part is a duration")
+	vrt.Assert(e2 == nil, "C19.arch.exact retention part is a duration")
+	vrt.Assert(step > 0, "C19.arch.exact step positive")
+	vrt.Assert(ret > 0, "C19.arch.exact retention positive")
+	vrt.Assert(int64(ret)%int64(step) == 0, "C19.arch.exact retention is a multiple of the step")
+	vrt.Assert(a.secondsPerPoint == step, "C19.arch.exact step value")
+	vrt.Assert(int64(a.numberOfPoints) == int64(ret)/int64(step), "C19.arch.exact point count")
+}
